@@ -88,7 +88,12 @@ func resolveVisible(d *Decl, groups []*Grp, name string) *Opt {
 }
 
 func preorderGroups(g *Grp) []*Grp {
-	r := []*Grp{g}
+	// (an untagged nested struct is not a group of its own in the library: its options and sub-groups belong to
+	// the group it is nested in)
+	var r []*Grp
+	if !g.Inline {
+		r = append(r, g)
+	}
 	for _, s := range g.Subs {
 		r = append(r, preorderGroups(s)...)
 	}
